@@ -3,10 +3,10 @@
 From Coq Require Import Reals Lra List ZArith Bool.
 From Inferno Require Import Base.Num Base.NumR Gen.Interpolation Gen.Extrapolation C20.InterpProofs.
 Open Scope R_scope.
-Theorem roundtrip_linear_forward : forall (adjust : option (T RN -> T RN)) (s t p n dt : R),
+Theorem roundtrip_linear_forward : forall (adjust : option (T RN -> T RN)) (s : T RN) (t : R) (p n : T RN) (dt : R),
   t <> 0 ->
   dt <> 0 ->
-  roundtrip (interp_linear RN)
-    (fun a b c d e : R => extrap_linear_forward RN a b c d e adjust) s t p n dt.
+  interp_linear RN (fst (extrap_linear_forward RN s t p n dt adjust))
+    (snd (extrap_linear_forward RN s t p n dt adjust)) t dt = s.
 Proof. exact (@Inferno.C20.InterpProofs.roundtrip_linear_forward). Qed.
 Print Assumptions roundtrip_linear_forward.
